@@ -641,6 +641,7 @@ func main() {
 	n := flag.Int("n", 1, "rounds")
 	model := flag.String("model", "", "extracted write-side model (build/ocaml/wsconc/model); empty: skip the correspondence part")
 	qn := flag.Int("qn", 0, "schedules of the correspondence part (real websocket.Conn over a held socket vs. the model)")
+	cn := flag.Int("cn", 0, "connections of the client-side tier (real websocket.Dialer against a greeting server)")
 	out := flag.String("out", "-", "")
 	full := flag.Bool("full", false, "every cell in every round instead of a rotating subset")
 	only := flag.String("only", "", "run only the cell path/epoll/async")
@@ -648,7 +649,9 @@ func main() {
 	flag.Parse()
 	logging.SetLogger(quiet{})
 	rep := hx.NewReport("wsconc", *seed)
-	rep.Rule = "correspondence part (frame limit 16): half random schedules of 6-27 operations (WriteMessage of a pong or of a zeros / text / seeded-random payload of 0..66 bytes, the held socket " +
+	rep.Rule = "client tier: real websocket.Dialer (sync Dial / async Dial with result handler, client engine LT / ET / ET+ONESHOT) against a server greeting from its open handler " +
+		"(1-3 messages, possibly a ping, right behind the 101 answer), a second batch of 1-3, then server close / client close / close frame; client open handler fast or 50-200 ms, message handlers 0-5 ms; " +
+		"correspondence part (frame limit 16): half random schedules of 6-27 operations (WriteMessage of a pong or of a zeros / text / seeded-random payload of 0..66 bytes, the held socket " +
 		"write returns ok or with an error, CloseAndClean) on a real websocket.Conn, direct and queued mode, queue bound 0 or 1-8, write compression off / on at levels -2..9; half points of the " +
 		"admission grid of a bounded queue (bound 1-8 x compression off / 12 levels x payload class x lengths k*16-2..k*16+2 for k=1..4 and lengths whose deflated size sits at a frame multiple " +
 		"x room left in the queue 0..needed+1; the whole grid in the thorough tier), replayed in lock step on the extracted model with the deflated length as oracle input, plus the wholeness " +
@@ -693,6 +696,9 @@ func main() {
 				break
 			}
 		}
+	}
+	if *only == "" || *only == "client" {
+		clientPart(rep, *seed, *cn)
 	}
 	if *only == "" || *only == "bounded" {
 		// the bounded send queue (not the default): 3 connections, heavy writers, queue of 4..16 slots
